@@ -127,7 +127,7 @@ func (d *rdb) recoverWithImages() string {
 		seen[im.j] = true
 		probe := d.flushProbe(im.j)
 		d.cfg.tr.Op("fimage %d recovery alloc=%d order=%s%s", im.j, alloc, strings.Join(order, ","), probeField(probe))
-		d.guard(func() string { d.inspectImage(im.dir, probe); return "" })
+		d.guard(func() string { d.inspectImageMode(im.dir, probe, alloc == 1 && im.j != 0); return "" })
 		d.cfg.st.Inc("flush-crash-images")
 		d.cfg.st.Inc(fmt.Sprintf("flush-crash-images.recovery.alloc%d", alloc))
 	}
@@ -159,7 +159,15 @@ func fileLen(path string) int64 {
 // and recovery), and reports again.  All of it happens in a child process: a statement that runs
 // away on a damaged image (unbounded recursion is a fatal error of the Go runtime, an endless loop
 // cannot be interrupted) takes only the child with it, and is reported as "panic" / "hang".
-func (d *rdb) inspectImage(dir string, probes []string) {
+func (d *rdb) inspectImage(dir string, probes []string) { d.inspectImageMode(dir, probes, false) }
+
+// judgeOnly: the lines go to the judge but are not compared with the model (images in the class of
+// the known torn-flush finding are damaged in ways whose every consequence the model need not share).
+func (d *rdb) inspectImageMode(dir string, probes []string, judgeOnly bool) {
+	out := d.out
+	if judgeOnly {
+		out = func(l string) { d.cfg.tr.Tilde(l) }
+	}
 	defer os.RemoveAll(dir)
 	outf := filepath.Join(dir, "inspect.txt")
 	tabs := "-"
@@ -171,18 +179,18 @@ func (d *rdb) inspectImage(dir string, probes []string) {
 	if b, err := os.ReadFile(outf); err == nil {
 		for _, l := range strings.Split(strings.TrimRight(string(b), "\n"), "\n") {
 			if strings.HasPrefix(l, "> ") {
-				d.out(l[2:])
+				out(l[2:])
 			}
 		}
 	}
 	switch res {
 	case "ok":
 	case "hang":
-		d.out("hang")
+		out("hang")
 	default:
-		d.out("panic")
+		out("panic")
 	}
-	d.out("end")
+	out("end")
 }
 
 // inspectChild is the body of the child process started by inspectImage (cwd = the image).
@@ -204,7 +212,12 @@ func inspectChild(name, outf string, tables, probes []string) {
 			return
 		}
 		img.rs = rs
-		img.reportTables()
+		if !img.reportTables() {
+			// a table that cannot even be read: the image is damaged beyond what later statements
+			// can be meaningfully run on (and compared with the model); the damage itself is reported
+			rs.VerifAbandon()
+			return
+		}
 		again := false
 		for _, q := range probes {
 			if q == "!again" {
@@ -240,16 +253,21 @@ func inspectChild(name, outf string, tables, probes []string) {
 }
 
 // reportTables writes "table <hex> <rows...>" for every table (output lines, not ops).
-func (d *rdb) reportTables() {
+func (d *rdb) reportTables() bool {
+	ok := true
 	for _, t := range d.tables {
 		var rows []*storage.Row
 		var err error
 		if pm := hx.Catch(func() { rows, _, err = d.rs.Fetch(t) }); pm != "" {
 			d.out(fmt.Sprintf("table %s panic", hxs(t)))
+			ok = false
 			continue
 		}
 		if err != nil {
 			d.out(fmt.Sprintf("table %s err %s", hxs(t), dbErrKind(err)))
+			if dbErrKind(err) != "tableNotExist" {
+				ok = false
+			}
 			continue
 		}
 		var rs []string
@@ -262,4 +280,5 @@ func (d *rdb) reportTables() {
 		}
 		d.out(strings.TrimSpace(fmt.Sprintf("table %s rows %s", hxs(t), strings.Join(rs, " | "))))
 	}
+	return ok
 }
